@@ -476,5 +476,14 @@ func (it *Interp) opaqueMethod(o *OpaqueVal, fn *types.Func, call *ast.CallExpr)
 			return Tuple{&SliceVal{Len: sym.Sym("len(" + tag + ")"), Cells: map[string]*sym.Term{}, Tag: tag}, &BoolVal{C: &Cond{Op: "param", A: sym.Sym("ok(" + tag + ")")}}}
 		}
 	}
+	if o.What == "pool" {
+		// a pool of one thread: the accumulators have one slot and the executing thread is thread 0
+		switch name {
+		case "NumberOfThreads":
+			return sym.One()
+		case "GetThreadId":
+			return sym.Zero()
+		}
+	}
 	return &OpaqueVal{o.What + "." + name}
 }
